@@ -714,9 +714,6 @@ func c03GenTokenKeys(r *verifh.Rng) verifh.Section {
 func c03Gen(r *verifh.Rng) []verifh.Section {
 	var secs []verifh.Section
 	for i, nz := 0, verifh.Scale(8, 50); i < nz; i++ {
-		secs = append(secs, c03GenTokenNow(r))
-	}
-	for i, nz := 0, verifh.Scale(8, 50); i < nz; i++ {
 		secs = append(secs, c03GenTokenKeys(r))
 	}
 	for i, nz := 0, verifh.Scale(10, 60); i < nz; i++ {
@@ -728,6 +725,10 @@ func c03Gen(r *verifh.Rng) []verifh.Section {
 	}
 	for i := 0; i < nt; i++ {
 		secs = append(secs, c03GenToken(r))
+	}
+	// last: by now the process is seconds old (a clock reading cached at start-up is visibly stale)
+	for i, nz := 0, verifh.Scale(8, 50); i < nz; i++ {
+		secs = append(secs, c03GenTokenNow(r))
 	}
 	return secs
 }
